@@ -8,6 +8,7 @@ import (
 	"net/http"
 	"net/http/httptest"
 	"net/netip"
+	"os"
 	"path/filepath"
 	"sort"
 	"strconv"
@@ -91,6 +92,9 @@ func (m *c12Mon) record(addr string, now, now2 int64, ok bool) {
 var c12Addrs = []string{"1.2.3.4", "::1", "10.0.0.7"}
 
 func c12LTable(ab *authRateLimiter, rel func(time.Time) int64) string {
+	if ab == nil {
+		return vfList("bytes * (Z * N)", nil)
+	}
 	keys := make([]string, 0, len(ab.failedAuths))
 	for k := range ab.failedAuths {
 		keys = append(keys, k)
@@ -320,15 +324,54 @@ func c12Prelude() []c12Script {
 
 // c12LoginHistory: the real mux with the real registration of /control/login,
 // a real Auth; the clock is advanced by moving every stored deadline back.
+// c12InitCfg, when set, makes c12LoginHistory build Auth and limiter through
+// the real initUsers with {auth_attempts, block_auth_min}.
+var c12InitCfg *[2]uint
+
 func c12LoginHistory(t *testing.T, out *vfOut, rnd *vfRand, users []webUser, name string, max uint, block time.Duration,
 	n int, script []c12Att) {
 	dir := t.TempDir()
-	ab := newAuthRateLimiter(block, max)
-	auth := InitAuth(filepath.Join(dir, "sessions.db"), users, 3600, ab, netutil.SliceSubnetSet(c12Trusted))
+	var ab *authRateLimiter
+	var auth *Auth
+	cfg := c12InitCfg
+	if cfg == nil {
+		ab = newAuthRateLimiter(block, max)
+		auth = InitAuth(filepath.Join(dir, "sessions.db"), users, 3600, ab, netutil.SliceSubnetSet(c12Trusted))
+	} else {
+		// round 3: the Auth object and its limiter come from the REAL
+		// initUsers, with auth_attempts / block_auth_min set in the
+		// configuration; max and block are from here on the configuration as
+		// the property reads it (the monitor obliges nothing when either is 0)
+		if err := os.MkdirAll(filepath.Join(dir, dataDir), 0o755); err != nil {
+			t.Fatal(err)
+		}
+		oldWork, oldUsers, oldAtt, oldBlk := globalContext.workDir, config.Users, config.AuthAttempts, config.AuthBlockMin
+		defer func() {
+			globalContext.workDir, config.Users, config.AuthAttempts, config.AuthBlockMin = oldWork, oldUsers, oldAtt, oldBlk
+		}()
+		globalContext.workDir = dir
+		config.Users = append([]webUser{}, users...)
+		config.AuthAttempts, config.AuthBlockMin = cfg[0], cfg[1]
+		var err error
+		auth, err = initUsers()
+		if err != nil {
+			t.Fatalf("initUsers: %v", err)
+		}
+		if auth != nil {
+			ab = auth.rateLimiter
+		}
+		max, block = cfg[0], time.Duration(cfg[1])*time.Minute
+	}
 	if auth == nil {
 		t.Fatal("InitAuth failed")
 	}
 	defer auth.Close()
+	tab := func() map[string]failedAuth {
+		if ab == nil {
+			return nil
+		}
+		return ab.failedAuths
+	}
 	oldAuth, oldMux, oldWeb, oldFirst := globalContext.auth, globalContext.mux, globalContext.web, globalContext.firstRun
 	defer func() {
 		globalContext.auth, globalContext.mux, globalContext.web, globalContext.firstRun = oldAuth, oldMux, oldWeb, oldFirst
@@ -343,12 +386,14 @@ func c12LoginHistory(t *testing.T, out *vfOut, rnd *vfRand, users []webUser, nam
 	vnow := func() int64 { return int64(time.Since(start)) + shift }
 	rel := func(u time.Time) int64 { return int64(u.Sub(start)) + shift }
 	advance := func(d int64) {
-		ab.failedAuthsLock.Lock()
-		for k, r := range ab.failedAuths {
-			r.until = r.until.Add(-time.Duration(d))
-			ab.failedAuths[k] = r
+		if ab != nil {
+			ab.failedAuthsLock.Lock()
+			for k, r := range tab() {
+				r.until = r.until.Add(-time.Duration(d))
+				ab.failedAuths[k] = r
+			}
+			ab.failedAuthsLock.Unlock()
 		}
-		ab.failedAuthsLock.Unlock()
 		shift += d
 	}
 	mon := newC12Mon(int(max), block, margin)
@@ -379,7 +424,7 @@ func c12LoginHistory(t *testing.T, out *vfOut, rnd *vfRand, users []webUser, nam
 			cands := []int64{0, 0, 0, int64(rnd.Range(0, int64(20*time.Second))), int64(failedAuthTTL) - int64(3*time.Second),
 				int64(failedAuthTTL) + int64(3*time.Second), int64(block) - int64(3*time.Second), int64(block) + int64(3*time.Second)}
 			v := vnow()
-			for _, r := range ab.failedAuths {
+			for _, r := range tab() {
 				u := rel(r.until)
 				cands = append(cands, u-v-int64(3*time.Second), u-v+int64(3*time.Second))
 			}
@@ -392,7 +437,7 @@ func c12LoginHistory(t *testing.T, out *vfOut, rnd *vfRand, users []webUser, nam
 		for tries := 0; tries < 10; tries++ {
 			v := vnow() + d
 			clash := false
-			for _, r := range ab.failedAuths {
+			for _, r := range tab() {
 				if x := rel(r.until) - v; x > -int64(margin) && x < int64(margin) {
 					clash = true
 				}
@@ -425,7 +470,7 @@ func c12LoginHistory(t *testing.T, out *vfOut, rnd *vfRand, users []webUser, nam
 		hname, hval := "", ""
 		if script != nil {
 			hname, hval = script[i].hname, script[i].hval
-		} else if rnd.Chance(3, 5) {
+		} else if cfg == nil && rnd.Chance(3, 5) {
 			hname = vfPick(rnd, c12HdrNames)
 			switch rnd.Intn(8) {
 			case 0:
@@ -466,12 +511,12 @@ func c12LoginHistory(t *testing.T, out *vfOut, rnd *vfRand, users []webUser, nam
 		if strings.Contains(addr, ":") {
 			req.RemoteAddr = "[" + addr + "]:40000"
 		}
-		recBefore, hadBefore := ab.failedAuths[addr]
+		recBefore, hadBefore := tab()[addr]
 		nsessBefore := len(auth.sessions)
 		v0 := vnow()
 		// the machine may have stalled since the instant was chosen: no
 		// deadline of the table may lie near the instant actually used
-		for _, r := range ab.failedAuths {
+		for _, r := range tab() {
 			if x := rel(r.until) - v0; x > -int64(margin)/2 && x < int64(margin)/2 {
 				out.Class("login-discarded-jitter")
 				return
@@ -498,7 +543,7 @@ func c12LoginHistory(t *testing.T, out *vfOut, rnd *vfRand, users []webUser, nam
 		}
 		desc = append(desc, fmt.Sprintf("+%v (t=%v) %s%s ok=%v kind=%d -> %d retry=%d", time.Duration(d), time.Duration(v0).Round(time.Millisecond), addr, hd, ok, kind, status, retry))
 		// the table must hold peer addresses only
-		for k := range ab.failedAuths {
+		for k := range tab() {
 			peer := false
 			for _, pa := range c12Addrs {
 				peer = peer || pa == k
@@ -513,7 +558,7 @@ func c12LoginHistory(t *testing.T, out *vfOut, rnd *vfRand, users []webUser, nam
 		}
 		// the property
 		rejected := status == http.StatusTooManyRequests
-		recAfter, hadAfter := ab.failedAuths[addr]
+		recAfter, hadAfter := tab()[addr]
 		if rejected {
 			if ok {
 				classes["login-429-correct-password"] = true
@@ -547,6 +592,31 @@ func c12LoginHistory(t *testing.T, out *vfOut, rnd *vfRand, users []webUser, nam
 			vfList("C12.login_step", steps)),
 		Nontrivial: classes["login-429"], MonitorOK: monOK, MonitorMsg: monMsg, FindingKey: key,
 		Desc: map[string]any{"kind": "handleLogin", "name": name, "max": max, "block": block.String(), "attempts": desc},
+	}
+	if cfg != nil {
+		obsBlock, obsMax := int64(0), uint64(0)
+		if ab != nil {
+			obsBlock, obsMax = int64(ab.blockDur), uint64(ab.maxAttempts)
+			classes["init-limiter-present"] = true
+		} else {
+			classes["init-limiter-absent"] = true
+		}
+		if cfg[1] == 1 {
+			classes["init-block-one-minute"] = true
+		}
+		// the property on the configuration itself: both settings positive
+		// means throttling is on
+		if (cfg[0] > 0 && cfg[1] > 0) != (ab != nil) {
+			fail("init-limiter-missing", fmt.Sprintf("auth_attempts: %d, block_auth_min: %d: initUsers returned an Auth whose rateLimiter is nil: %v", cfg[0], cfg[1], ab == nil))
+		} else if ab != nil && (ab.maxAttempts != cfg[0] || ab.blockDur != time.Duration(cfg[1])*time.Minute) {
+			fail("init-limiter-params", fmt.Sprintf("auth_attempts: %d, block_auth_min: %d: the limiter has maxAttempts %d, blockDur %v", cfg[0], cfg[1], ab.maxAttempts, ab.blockDur))
+		}
+		c.Coq = vfApp("C12.CInitLogin", vfZ(int64(cfg[0])), vfZ(int64(cfg[1])), vfBool(ab != nil), vfZ(obsBlock), vfN(obsMax), vfZ(int64(tol)),
+			vfList("C12.login_step", steps))
+		c.Nontrivial = classes["login-429"] || ab == nil
+		c.MonitorOK, c.MonitorMsg, c.FindingKey = monOK, monMsg, key
+		c.Desc = map[string]any{"kind": "initUsers + handleLogin", "name": name, "auth_attempts": cfg[0], "block_auth_min": cfg[1],
+			"limiter_present": ab != nil, "attempts": desc}
 	}
 	for k := range classes {
 		c.Classes = append(c.Classes, k)
@@ -1092,6 +1162,32 @@ func TestVerifC12(t *testing.T) {
 		{now: 0, addr: a, hname: "X-Real-IP", hval: "10.0.0.1"}, {now: s, addr: a, ok: true, hname: "X-Real-IP", hval: "10.0.0.2"},
 		{now: s, addr: a, hname: "X-Real-IP", hval: "10.0.0.3"}, {now: s, addr: a, hname: "X-Real-IP", hval: "10.0.0.1"},
 		{now: s, addr: a, ok: true, hname: "X-Real-IP", hval: "10.0.0.4"}})
+	// round 3: the limiter as the real initUsers builds it.  Every
+	// configuration of {0,1,2,5} x {0,1,2,15}: a burst of failures from one
+	// address, a wrong and the correct password right after it, another
+	// address, an attempt shortly before the end of the configured block and
+	// one after it.
+	for _, att := range []uint{0, 1, 2, 5} {
+		for _, blk := range []uint{0, 1, 2, 15} {
+			c12InitCfg = &[2]uint{att, blk}
+			n := int(att)
+			if n == 0 {
+				n = 3
+			}
+			sc := []c12Att{}
+			for i := 0; i < n; i++ {
+				sc = append(sc, c12Att{now: s, addr: a})
+			}
+			bd := int64(blk) * int64(time.Minute)
+			if bd == 0 {
+				bd = int64(time.Minute)
+			}
+			sc = append(sc, c12Att{now: s, addr: a}, c12Att{now: s, addr: a, ok: true}, c12Att{now: 0, addr: c12Addrs[1], ok: true},
+				c12Att{now: bd - 12*s, addr: a, ok: true}, c12Att{now: 14 * s, addr: a, ok: true}, c12Att{now: s, addr: a})
+			c12LoginHistory(t, out, vfNewRand(uint64(100+att*16+blk)), users, fmt.Sprintf("prelude/initUsers-%d-%d", att, blk), 0, 0, len(sc), sc)
+		}
+	}
+	c12InitCfg = nil
 	c12SessHistory(t, out, vfNewRand(3), users, "prelude/lifecycle", 12, []string{
 		"new", "check", "http", "new", "logout:1", "check:1", "restart", "check:0", "setexp", "check", "restart", "check"})
 	// spellings: login; request and logout with the upper-case / mixed-case /
@@ -1163,6 +1259,12 @@ func TestVerifC12(t *testing.T) {
 		r := rnd.Fork(uint64(100000 + i))
 		block := vfPick(r, []time.Duration{10 * time.Second, 30 * time.Second, time.Minute, 90 * time.Second, 15 * time.Minute})
 		c12LoginHistory(t, out, r, users, "random", uint(1+r.Intn(5)), block, 6+r.Intn(25), nil)
+		if i%4 == 0 {
+			// round 3: random histories on the limiter initUsers builds
+			c12InitCfg = &[2]uint{vfPick(r, []uint{0, 1, 2, 3, 5}), vfPick(r, []uint{0, 1, 1, 2, 15})}
+			c12LoginHistory(t, out, r, users, "random-initUsers", 0, 0, 6+r.Intn(20), nil)
+			c12InitCfg = nil
+		}
 	}
 	nSess := out.Scale(150, 1200)
 	for i := 0; i < nSess; i++ {
